@@ -242,6 +242,7 @@ ODD_EXCS = ('CyclicCause', 'CyclicContext', 'SelfCause', 'Unhashable', 'Unhashab
 
 _threads = {}      # tag -> dict(event=Event, thread=..)
 _saved_streams = []
+_private_streams = []
 _flaky_counts = {}
 
 
@@ -385,9 +386,11 @@ def do_actions(acts, where):
             if act[1] == 'save':
                 _saved_streams.append((sys.stdout, sys.stderr))
                 sys.stdout, sys.stderr = io.StringIO(), io.StringIO()
+                _private_streams.append((sys.stdout, sys.stderr))
             elif act[1] == 'restore':
                 if _saved_streams:
                     sys.stdout, sys.stderr = _saved_streams.pop()
+                    _private_streams.pop()
             elif act[1] == 'leak':
                 which = act[2] if len(act) > 2 else 'oe'
                 if 'o' in which:
@@ -395,6 +398,11 @@ def do_actions(acts, where):
                 if 'e' in which:
                     sys.stderr = io.StringIO()
             emit('swap', how=act[1], where=where)
+        elif kind == 'probe_private':
+            # are the private streams installed by the innermost ['swap', 'save'] still in place?
+            if _private_streams:
+                emit('probe_private', where=where, ok=(sys.stdout is _private_streams[-1][0] and
+                                                       sys.stderr is _private_streams[-1][1]))
         elif kind == 'probe':
             emit('probe', where=where, so=sys.stdout is ORIG_STREAMS[0], se=sys.stderr is ORIG_STREAMS[1])
         else:
@@ -885,6 +893,7 @@ def set_spec(spec, tracer=None, control=None):
     _SPEC = spec
     _WORLD = None
     del _saved_streams[:]
+    del _private_streams[:]
     _flaky_counts.clear()
     if tracer is not None:
         TRACER = tracer
